@@ -4,6 +4,7 @@ import (
 	"math/big"
 	"strconv"
 	"strings"
+	"sync/atomic"
 )
 
 // decExp returns n with 10^(n-1) <= num/den < 10^n (num, den > 0).
@@ -38,6 +39,24 @@ func Shortest(f float64) (digits string, n int, unique bool) {
 	if !(f > 0) || !IsFinite(f) {
 		panic("numref: Shortest needs a positive finite double")
 	}
+	if c := shortestCache.Load(); c != nil && c.f == f {
+		return c.digits, c.n, c.unique
+	}
+	digits, n, unique = shortest(f)
+	shortestCache.Store(&shortestEntry{f, digits, n, unique})
+	return
+}
+
+type shortestEntry struct {
+	f      float64
+	digits string
+	n      int
+	unique bool
+}
+
+var shortestCache atomic.Pointer[shortestEntry]
+
+func shortest(f float64) (digits string, n int, unique bool) {
 	_, m, e := Decompose(f)
 	// work in units of 2^(e-2): f = F, upper boundary F+2, lower boundary F-2 (or F-1 at a binade boundary)
 	F := new(big.Int).SetUint64(m)
@@ -63,8 +82,14 @@ func Shortest(f float64) (digits string, n int, unique bool) {
 		twoDown = new(big.Int).Lsh(bigOne, uint(-u))
 	}
 	var mul, den, nF, nLo, nHi, s, t, dist, bestDist big.Int
-	for k := 1; k <= 17; k++ {
-		q := nf - k
+	inside := func(v *big.Int) bool { // v = candidate * den
+		cl, ch := v.Cmp(&nLo), v.Cmp(&nHi)
+		return (cl > 0 || (cl == 0 && inclusive)) && (ch < 0 || (ch == 0 && inclusive))
+	}
+	// try(k): is there a k-digit (or shorter) decimal s*10^(nf-k) inside the rounding interval? If so return the closest
+	// one (ties to even s) and whether it is the only one.
+	try := func(k int) (best *big.Int, q int, hits int) {
+		q = nf - k
 		// candidate value s*10^q; compare s*den with X*mul for X in {F, lo, hi}
 		if q >= 0 {
 			mul.Set(twoUp)
@@ -77,16 +102,12 @@ func Shortest(f float64) (digits string, n int, unique bool) {
 		nLo.Mul(lo, &mul)
 		nHi.Mul(hi, &mul)
 		s.Quo(&nF, &den)
-		var best *big.Int
-		hits := 0
 		for c := 0; c < 2; c++ {
 			if c == 1 {
 				s.Add(&s, bigOne)
 			}
 			t.Mul(&s, &den)
-			cl, ch := t.Cmp(&nLo), t.Cmp(&nHi)
-			in := (cl > 0 || (cl == 0 && inclusive)) && (ch < 0 || (ch == 0 && inclusive))
-			if !in || s.Sign() == 0 {
+			if s.Sign() == 0 || !inside(&t) {
 				continue
 			}
 			hits++
@@ -95,36 +116,43 @@ func Shortest(f float64) (digits string, n int, unique bool) {
 			if best == nil {
 				best = new(big.Int).Set(&s)
 				bestDist.Set(&dist)
-			} else {
-				c := dist.Cmp(&bestDist)
-				if c < 0 || (c == 0 && s.Bit(0) == 0) {
-					best.Set(&s)
-				}
+			} else if dc := dist.Cmp(&bestDist); dc < 0 || (dc == 0 && s.Bit(0) == 0) {
+				best.Set(&s)
 			}
 		}
-		if best == nil {
-			continue
-		}
-		// are there further k-digit candidates in the interval (s-1, s+2)? They are never closer, but they make the last digit non-unique.
-		if hits == 1 {
+		if best != nil && hits == 1 {
+			// further k-digit candidates in the interval are never closer, but they make the last digit non-unique
 			for _, d := range []int64{-1, 1} {
 				t.Add(best, big.NewInt(d))
 				if t.Sign() <= 0 {
 					continue
 				}
 				t.Mul(&t, &den)
-				cl, ch := t.Cmp(&nLo), t.Cmp(&nHi)
-				if (cl > 0 || (cl == 0 && inclusive)) && (ch < 0 || (ch == 0 && inclusive)) {
+				if inside(&t) {
 					hits++
 				}
 			}
 		}
-		ds := best.String()
-		n = q + len(ds)
-		ds = strings.TrimRight(ds, "0")
-		return ds, n, hits == 1
+		return
 	}
-	panic("numref: no 17-digit representation round-trips: " + strconv.FormatUint(m, 10))
+	// existence is monotone in k (a k-digit member stays a member when a 0 is appended): binary search the minimum
+	loK, hiK := 1, 17
+	if b, _, _ := try(17); b == nil {
+		panic("numref: no 17-digit representation round-trips: " + strconv.FormatUint(m, 10))
+	}
+	for loK < hiK {
+		mid := (loK + hiK) / 2
+		if b, _, _ := try(mid); b != nil {
+			hiK = mid
+		} else {
+			loK = mid + 1
+		}
+	}
+	best, q, hits := try(loK)
+	ds := best.String()
+	n = q + len(ds)
+	ds = strings.TrimRight(ds, "0")
+	return ds, n, hits == 1
 }
 
 // FormatShortest lays out digits/n as Number::toString(radix 10) prescribes (steps 6–11), without sign.
